@@ -30,6 +30,42 @@ RetShape(op) == IF op.kind = "copy" THEN "str" ELSE "pair"
 PairsOf(m) == { <<m[i][1], m[i][2]>> : i \in DOMAIN m }
 
 \* ------------------------------------------------------------------ library
+\* first failing document clause (I, O abstract input / output; pairs = returned mapping)
+DocFail(c, I, O, pairs) ==
+  LET op == c.op IN
+  IF c.lib.doc.nblocks # c.in.nblocks \/ c.lib.doc.block # c.in.block
+    THEN <<"fail", "FrameDataBlock", "block">>
+  ELSE IF ~FrameOtherCategories(I, O, op) THEN <<"fail", "FrameOtherCategories", "cats">>
+  ELSE IF ~FrameRowsAndOrder(I, O, op) THEN <<"fail", "FrameRowsAndOrder", "rows">>
+  ELSE IF ~FrameOtherItems(I, O, op) THEN <<"fail", "FrameOtherItems", "items">>
+  ELSE IF op.kind = "copy" /\ ~CopyTargetEqualsSource(I, O, op)
+    THEN <<"fail", "CopyTargetEqualsSource", "target">>
+  ELSE IF op.kind = "replace" /\ Cardinality(pairs) # Len(c.lib.mapping)
+    THEN <<"fail", "ReplaceIsInjectiveFirstSeen", "keys">>
+  ELSE IF op.kind = "replace" /\ ~ReplaceIsInjectiveFirstSeen(I, O, op, pairs)
+    THEN <<"fail", "ReplaceIsInjectiveFirstSeen", "image">>
+  ELSE IF O # Expected(I, op) THEN <<"fail", "ExpectedDocument", "doc">>
+  ELSE <<"ok">>
+
+\* Named deviation of the library functions:
+\*  EmptyStringWrittenAsDot  whenever the document is re-serialised, every value that is the
+\*                           empty string (written '' in the input) comes out as the null
+\*                           marker "." - anywhere in the file, also in untouched categories.
+\*                           Explains a case exactly when the output is the expected document
+\*                           with "" replaced by "." in every cell (and nothing else differs,
+\*                           and the returned mapping is the required one).
+NormEmpty(F) ==
+  [n \in DOMAIN F |-> [k \in DOMAIN F[n] |-> [a \in DOMAIN F[n][k] |->
+      IF F[n][k][a] = "" THEN "." ELSE F[n][k][a]]]]
+LibDeviationNames == {"EmptyStringWrittenAsDot"}
+LibExplainedBy(c, I, O, pairs, dev) ==
+  /\ dev = "EmptyStringWrittenAsDot"
+  /\ c.lib.doc.nblocks = c.in.nblocks /\ c.lib.doc.block = c.in.block
+  /\ O # Expected(I, c.op)
+  /\ O = NormEmpty(Expected(I, c.op))
+  /\ c.op.kind = "replace" => /\ pairs = ExpectedMapPairs(I, c.op)
+                              /\ Cardinality(pairs) = Len(c.lib.mapping)
+
 LibVerdict(c) ==
   LET op == c.op IN
   IF ~OpOK(op) \/ ~WellFormedDoc(c.in) THEN <<"fail", "InputWellFormed", "harness">>
@@ -45,20 +81,12 @@ LibVerdict(c) ==
   ELSE IF ~c.lib.parsed THEN <<"fail", "OutputParses", "tokens">>
   ELSE IF ~WellFormedDoc(c.lib.doc) THEN <<"fail", "OutputWellFormed", "document">>
   ELSE LET O == DocFun(c.lib.doc)
-           pairs == PairsOf(c.lib.mapping) IN
-       IF c.lib.doc.nblocks # c.in.nblocks \/ c.lib.doc.block # c.in.block
-         THEN <<"fail", "FrameDataBlock", "block">>
-       ELSE IF ~FrameOtherCategories(I, O, op) THEN <<"fail", "FrameOtherCategories", "cats">>
-       ELSE IF ~FrameRowsAndOrder(I, O, op) THEN <<"fail", "FrameRowsAndOrder", "rows">>
-       ELSE IF ~FrameOtherItems(I, O, op) THEN <<"fail", "FrameOtherItems", "items">>
-       ELSE IF op.kind = "copy" /\ ~CopyTargetEqualsSource(I, O, op)
-         THEN <<"fail", "CopyTargetEqualsSource", "target">>
-       ELSE IF op.kind = "replace" /\ Cardinality(pairs) # Len(c.lib.mapping)
-         THEN <<"fail", "ReplaceIsInjectiveFirstSeen", "keys">>
-       ELSE IF op.kind = "replace" /\ ~ReplaceIsInjectiveFirstSeen(I, O, op, pairs)
-         THEN <<"fail", "ReplaceIsInjectiveFirstSeen", "image">>
-       ELSE IF O # Expected(I, op) THEN <<"fail", "ExpectedDocument", "doc">>
-       ELSE <<"ok">>
+           pairs == PairsOf(c.lib.mapping)
+           f == DocFail(c, I, O, pairs) IN
+       IF f = <<"ok">> THEN f
+       ELSE IF \E dev \in LibDeviationNames : LibExplainedBy(c, I, O, pairs, dev)
+         THEN <<"deviation", CHOOSE dev \in LibDeviationNames : LibExplainedBy(c, I, O, pairs, dev), f[2]>>
+       ELSE f
 
 \* ------------------------------------------------------------------ command line
 \* Required: main writes exactly the text the library returns for the file's content.
